@@ -159,13 +159,10 @@ void Scheduler::Sleep(std::uint64_t ns) {
 void Scheduler::SleepPreemptive(std::uint64_t ns) {
   ns += detail::GetRandNumber(GetFaultSleepTime());
   Sleep(ns);
-  // <= because wakeup called before time adjustment
-  if (_time <= ns) {
-    auto it = _sleep_list.find(ns);
-    YACLIB_DEBUG(it == _sleep_list.end(), "sleep_list for time that is not passed yet isn't found");
-    if (it->second.Empty()) {
-      _sleep_list.erase(ns);
-    }
+  // A fiber notified before its deadline leaves its (maybe empty) bucket behind; an empty bucket must not
+  // stay in the map: RunLoop expects that an entry of _sleep_list has somebody to wake
+  if (auto it = _sleep_list.find(ns); it != _sleep_list.end() && it->second.Empty()) {
+    _sleep_list.erase(it);
   }
 }
 
